@@ -30,6 +30,7 @@ def main(argv=None):
 
 
 RULE_SECONDS = 120
+_PROGRAMS = dict()   # one parse per tree and process
 
 
 class _time_limit:
@@ -62,8 +63,11 @@ class _time_limit:
 def run_one(pid, args, seed):
     try:
         meta = props.PROPS[pid]
-        program = frontend.Program(
-            args.repo, need_cython=meta.get('cython', False))
+        key = (args.repo, meta.get('cython', False))
+        if key not in _PROGRAMS:
+            _PROGRAMS[key] = frontend.Program(
+                args.repo, need_cython=meta.get('cython', False))
+        program = _PROGRAMS[key]
         result = report.Result(pid, args.tier)
         only = None
         if args.replay:
